@@ -12,6 +12,7 @@ import re
 
 from vlib import Broken, NCPU, log
 
+PROPS = {"C08": "model_checking"}
 HARNESS = ["zz_verif_routing_test.go", "zz_verif_life_test.go"]
 PROFILES = {
     "quick": dict(design=[("life_cur.cfg", 300), ("life_cur_full.cfg", 300), ("life_ideal.cfg", 300)],
